@@ -432,8 +432,13 @@ func main() {
 		en.feed(dv, raw, link, 512, nil, "random", what, false, false)
 		if strings.HasPrefix(what, "stun") || (i%16 == 0 && len(raw) <= 200) {
 			ans := ""
-			_, err := stun.ParseBindingRequest(raw)
+			var err error
+			if pn, okp := vlib.Safe(func() string { _, err = stun.ParseBindingRequest(raw); return "" }); !okp {
+				err = errors.New(pn)
+				ans = "PANIC"
+			}
 			switch {
+			case ans == "PANIC":
 			case err == nil || errors.Is(err, stun.ErrWrongFingerprint):
 				ans = fmt.Sprintf("crc %d", len(raw)-8)
 			case errors.Is(err, stun.ErrNotSTUN):
@@ -455,11 +460,13 @@ func main() {
 		}
 		if i%4 == 0 && len(raw) <= 120 {
 			seed := udpip.VerifScmpLinkSeed(dv.v.Link(link))
-			id, ok := udpip.VerifScmpComputeProcID(raw, nproc, seed)
-			ans := "no"
-			if ok {
-				ans = fmt.Sprintf("ok %d", id)
-			}
+			ans, _ := vlib.Safe(func() string {
+				id, ok := udpip.VerifScmpComputeProcID(raw, nproc, seed)
+				if ok {
+					return fmt.Sprintf("ok %d", id)
+				}
+				return "no"
+			})
 			tg := "pid/" + ans[:2]
 			e.Op(fmt.Sprintf("pid %d %d %s", nproc, seed, vlib.Hex(raw)), ans, tg)
 		}
